@@ -79,6 +79,15 @@ def gen_sched(ctx):
     if r < 0.75 and rng.random() < 0.3:
         # an adapter (pass-through or fixed delay) that fans out to two consumers, next to sibling links of the same output
         spec = sc.add_branching_adapter(rng, spec)
+    if rng.random() < 0.08:
+        # one DelayFixed object serving two consumers that start at different times (what the adapter clamps at must not
+        # depend on which of them exchanged its metadata last)
+        spec = sc.normalise({"comps": [{"kind": "time", "start": 0, "steps": [rng.choice([1, 1, 2])]},
+                                       {"kind": "time", "start": rng.choice([0, 0, 1]), "steps": [rng.choice([1, 2, 3])]},
+                                       {"kind": "time", "start": rng.choice([2, 3, 4, 5]), "steps": [rng.choice([1, 2, 3])]}],
+                             "links": [{"src": 0, "out": 0, "dst": 1, "ads": [["dfix", rng.randint(1, 4)]]},
+                                       {"src": 0, "out": 0, "dst": 2, "ads": rng.choice([[], [], [["scale"]]]), "via": 0}],
+                             "order": [0, 1, 2], "end": rng.randint(10, 20)})
     for c in spec["comps"]:
         if c["kind"] == "time":
             c["mix"] = True
